@@ -2,6 +2,7 @@ import gc
 import ctypes
 import threading
 import multiprocessing.pool
+from adsg_core._verif import point as _vp
 
 try:
     import gevent
@@ -22,16 +23,22 @@ def run_timeout(seconds: float, func, *args, **kwargs):
     def _inner_run():
         with multiprocessing.pool.ThreadPool(processes=1) as pool:
             thread = pool.apply(lambda: threading.current_thread())
+            _vp('tl.submit', worker=thread.ident)
 
             try:
                 return pool.apply_async(func, args, kwargs).get(timeout=seconds)
             except multiprocessing.TimeoutError:
+                _vp('tl.timed_out')
                 pass
 
+        _vp('tl.pool_exited')
         if thread.is_alive():
+            _vp('tl.inject')
             ctypes.pythonapi.PyThreadState_SetAsyncExc(
                 ctypes.c_long(thread.ident), ctypes.py_object(KeyboardInterrupt()))
+            _vp('tl.join')
             thread.join()
+        _vp('tl.raise')
         raise TimeoutError
 
     # This call flow ensure that the memory of the "killed" thread is cleared
